@@ -452,6 +452,14 @@ def pack_into_passes(nng, arch, verbose_packing=False):
                 ):
                     return False
 
+            # A ReLU cannot be applied behind a fused table lookup, tanh or sigmoid by the same operation
+            if (
+                curr_op.type in activation_ops
+                and next_op.activation is not None
+                and not next_op.activation.op_type.is_relu_op()
+            ):
+                return False
+
             # curr_op must read all of inp: the read offset of a split/slice that was moved onto curr_op is only
             # honoured for the primary op of a pass
             if inp == curr_op.ifm and curr_op.read_offsets[0] is not None:
